@@ -5,18 +5,28 @@ PROP = dict(
                  env=dict(quick=dict(VERIF_CASES=24), thorough=dict(VERIF_CASES=120)),
                  timeout=dict(quick=600, thorough=3000)),
         ],
-        rule="the same seeded history (fixture at Friday 2024-03-08 12:00 UTC: lends, borrows, 2 vaults, liquidity pair + pool, an external "
+        rule="the same seeded history (fixture at Friday 2024-03-08 12:00 UTC: lends, borrows, 2 vaults, liquidity pair + pool, an app `govx` created by the asset AddApp proposal handler "
+             "whose liquidity generic params are ALL set to non-default values (SwapFeeRate, WithdrawFeeRate, SwapFeeBurnRate 0.25, MaxPriceLimitRatio, "
+             "MinInitialDepositAmount, MinInitialPoolCoinSupply, Pair/PoolCreationFee, MaxOrderLifespan, OrderExtraGas) by the UpdateGenericParams "
+             "proposal handler, with a pair (CreateNewLiquidityPair proposal) and a pool; an external "
              "vault-reward program and an external locker-reward program (two lockers) each paying once a day; then 24 (thorough 120) blocks of 6-15 transactions: limit orders at 7 prices with repeats "
-             "so that several orders share a price, pool deposits, vault create / deposit / draw, a price drop at 2/3 of the history that triggers "
+             "so that several orders share a price, pool deposits, vault create / deposit / draw, orders in govx's pair, NEW APPS THAT TAKE THE DEFAULT liquidity parameters (AddApp + CreateNewLiquidityPair "
+             "proposals, then a pool and an order by a user; at most one per block, 4 + blocks/4 in all), at one third of the history a "
+             "re-parametrisation of the running apps through the contract bindings of app/wasm (UpdatePairsVault, WhitelistAppIDVaultInterest, "
+             "WhitelistAppIDLockerRewards, UpdateCollectorLookupTable, AddAuctionParams, WhitelistAppIDLiquidation) and governance handlers (lend "
+             "AddAssetRatesParams / AddAuctionParams, auctionsV2 DutchAutoBidParams, liquidationsV2 WhitelistLiquidation, liquidity UpdateGenericParams "
+             "of the swap app), after every block parameter QUERIES on a dropped branch (liquidity gRPC GenericParams of both apps, pair vault, auction, "
+             "whitelisting, lend rates; govx is decoded last, so the non-default values are what the process saw last when the second in-process "
+             "replay starts; the answers are part of the observation), a price drop at 2/3 of the history that triggers "
              "V2 liquidations, all wired block hooks at every block; two blocks out of three 6 s apart, the third 9 h 17 min later, so that 24 "
              "blocks span three days and cross the US daylight-saving switch of 2024-03-10 and several midnights of every zone used) replayed in "
              "2 fresh in-process applications and 4 fresh processes: GOMAXPROCS 1 / TZ=UTC, GOMAXPROCS 2 / TZ=America/New_York, GOMAXPROCS 8 / "
              "TZ=Asia/Tokyo (time/tzdata is embedded in the harness), and GOMAXPROCS 4 with DISCARDED DRY RUNS before every transaction: the "
-             "same message on a cache context that is never written (signer funded there), then the same message on a second dropped branch "
+             "same message (or proposal / new-app sequence) on a cache context that is never written (signer funded there), then the same on a second dropped branch "
              "on which liquidity generic params, all oracle prices, the extended-pair vault parameters, both auction parameter sets, the "
              "liquidation whitelistings, the lend rate parameters, the reward epoch and (every 4th) the kill switch were changed and a block 49 h "
              "in the future ran (all hooks); case = block; observation per block = SHA-256 of each of the 15 DeFi module stores, of the balances "
-             "of all touched accounts + supplies, and each transaction's result class; non-trivial = at least 2 replays, successful "
+             "of all touched accounts + supplies, of the query answers, and each transaction's result class; non-trivial = at least 2 replays, successful "
              "transactions, replays in at least 3 different zones one of which switches its offset inside the history (the runner reads the "
              "offsets each process reports), and a dry-run replay; a difference between any two replays is a predicate failure naming block, "
              "store and replay",
@@ -28,12 +38,22 @@ PROP = dict(
                   "codec: the closed list procstate_ext_ok) are not looked into; values behind interface-typed fields and variables captured by "
                   "function literals are not followed; package-level slices / pointers handed to functions are not followed (only direct "
                   "writes, and every alias of a package-level map / channel / sync value)",
+                  "alias scan (procstate-alias): whole-program, flow- and field-insensitive taint from every package-level variable / field of a "
+                  "state-machine struct whose type holds a *big.Int (Dec, Int, Uint, Coin(s), DecCoin(s), big.Int, structs / slices / maps / pointers of them) "
+                  "through locals, fields, literals, &, *, conversions, append, range, arguments / receivers / results of repository functions (interface "
+                  "methods resolved to every implementer; pointer parameters written in the callee taint the caller's argument), results of "
+                  "Coin(s) methods and of external functions given an alias (MinDec, NewCoin ...); NOT followed: values stored into fields of heap objects "
+                  "reached only through other pointers (the holder variable at the bottom of the left-hand side becomes the alias), channels, "
+                  "values boxed in interfaces and unboxed elsewhere than by a type assertion on the same variable, function literals called through "
+                  "variables, reflection (reflect.ValueOf of an address is a row), by-VALUE arguments of functions outside the repository (trusted not "
+                  "to run in-place methods on them); known read-only callees are a name list (Marshal* / MustMarshal* / Get* / Validate* / Is* / Has* / "
+                  "Size / String / fmt printing / errors wrapping ...); a function is listed under the FIRST source its result aliases",
                   "local-time scan: a time.Time that arrives from outside a function (block header time, decoded store values, parameters) is "
                   "taken to be in UTC - which holds by induction because every zone-of-the-process Time that leaves a function is itself a row; "
                   "Truncate / Round work on the absolute instant and are followed, not failed"],
         assumptions=["map iteration is the only language-level source of nondeterminism besides goroutines, select, clocks, randomness, "
                      "environment reads, memory of the process outside the store and the zone of the process, whose absence outside registered "
-                     "sites is the table theorem c16_no_ambient (with c16_no_process_state and c16_no_local_time)",
+                     "sites is the table theorem c16_no_ambient (with c16_no_process_state, c16_no_default_aliasing and c16_no_local_time)",
                      "packages under /simulation, /client/, /testutil, module_simulation.go and app/test_*.go are not scanned for ambient sources",
                      "registered harmless sites of the unchanged tree (each read; justification beside the registry in Model/MapSites.v): "
                      "(1) 14 x types.RegisterInterfaces pass &_Msg_serviceDesc (generated gRPC descriptor) to msgservice.RegisterMsgServiceDesc, "
@@ -42,7 +62,12 @@ PROP = dict(
                      "context-taking types x/liquidity/types.BulkSendCoinsOperation (per-call batch of bank sends, filled and run inside one keeper "
                      "call) and x/asset/keeper.Migrator never leave the call stack (checked by the translator: no field, package variable, "
                      "interface conversion, external call, literal, closure or channel holds one); (4) types.ParseTime returns time.Parse's "
-                     "result without .UTC() but nothing in non-test code refers to it (caller list checked empty / wiring-only)"],
+                     "result without .UTC() but nothing in non-test code refers to it (caller list checked empty / wiring-only); (5) two alias sites: "
+                     "asset.SetParams hands &params (possibly types.DefaultParams(), whose fee Coin shares its big.Int with "
+                     "types.DefaultAssetRegistrationFee) to the params subspace's SetParamSet, which copies each field out by reflection, validates "
+                     "and amino-JSON-encodes it (read in cosmos-sdk v0.47.5 x/params/types/subspace.go: nothing decodes into the pointer); "
+                     "liquidity.UpdateGenericParams does reflect.ValueOf(&genericParams).Elem().FieldByName(k).Set(v) on a local copy that may come from "
+                     "DefaultGenericParams: Set ASSIGNS the field (replaces the struct that holds the pointer), the shared big.Int is not written"],
     )
 
 MANIFEST = dict(
@@ -54,14 +79,18 @@ MANIFEST = dict(
                "goroutine / select exists and randomness / wall clock / environment occur only in simulation helpers nothing else refers to; "
                "c16_no_process_state: no write to memory of the process (fields of keeper / module / app structs and what they hold, package-level "
                "variables, in-place Dec / big.Int operations, sync / atomic values) outside init, constructors and registered read-only sites, no "
-               "unlisted external type held, no alias the scan cannot follow; c16_no_local_time: no Time in the zone of the process used in a "
+               "unlisted external type held, no alias the scan cannot follow; c16_no_default_aliasing: no COPY of a package-level / keeper-held Dec / "
+               "Int / Coin(s) / big.Int value (it shares the big.Int of the original; followed through the whole program) is handed by address to a "
+               "decoder or used as the receiver of an in-place method outside two registered read-only sites; c16_no_local_time: no Time in the zone of the process used in a "
                "calendar / formatting operation or let out of a function before .UTC(). Tied dynamically by replaying one seeded multi-module "
                "history in 2 in-process applications and 4 processes (different GOMAXPROCS, TZ=UTC / America/New_York / Asia/Tokyo across a "
-               "daylight-saving switch, and one with discarded dry runs before every transaction) and comparing per-block store digests.",
+               "daylight-saving switch, and one with discarded dry runs before every transaction) and comparing per-block store digests; the history "
+               "sets non-default parameters through the governance / contract-binding paths and keeps creating apps that take the defaults, so a "
+               "default leaked through the memory of the process shows in the second in-process replay.",
     design_ref="DESIGN.md section 4 C16",
     level_note="Determinism of the Gallina model itself would be vacuous; the theorems are about the Go-level nondeterminism sources. Float "
                "reproducibility across architectures is assumed. The process-state and local-time theorems are closed-world table facts over "
                "the regenerated AmbientTable (finite, vm_compute + forallb_forall); an unrecognised shape is a failing row. No axioms.",
     technique="Coq proof (permutation invariance per map-range site, generic fold lemma) + translated closed-world tables (ambient sources, "
-              "process-local mutable state, local time zone) + multi-process / multi-zone / dry-run replay",
+              "process-local mutable state, aliases of process-wide Dec / Int / Coin values, local time zone) + multi-process / multi-zone / dry-run replay",
 )
